@@ -347,7 +347,7 @@ func TestC05(t *testing.T) {
 			var pr *prober
 			every := abs.EnvInt("VERIF_TPROBE_EVERY", 4)
 			rec := abs.RingRecorder{N: n, M: tm, Replicas: 3, Steps: abs.EnvInt("VERIF_TSTEPS", 400), MaxNow: abs.EnvInt("VERIF_TMAXNOW", 60), SharedPct: 100,
-				Seed: abs.Seed()*15485863 + 5, Path: filepath.Join(traceDir, "ring_trace.ndjson"), SigPrefix: "ring:trace", Corrupt: corrupt}
+				Seed: abs.Seed()*15485863 + 5, Path: filepath.Join(traceDir, "ring_trace.ndjson"), SigPrefix: "ring:trace", Corrupt: abs.EnvInt("VERIF_CORRUPT_TRACE", 0)}
 			rec.AfterStep = func(r int, d *ring.Desc, ev int, emb abs.Embedding) {
 				if ev%every != 0 {
 					return
